@@ -97,11 +97,14 @@ func main() {
 	ex := &Exec{scratch: args.Scratch, out: out, rng: xvlib.NewRng(args.Seed)}
 	// As a further engine of C03 (a transaction is confirmed through a block - the node's own block too - only if its
 	// inputs are outputs of the chain the block extends): only the findings that say so are C03's, the rest is C13's.
-	if args.Prop == "C03" {
+	// As a further engine of C06 (a block the node wrote to its ledger must be one the state machine can apply when the
+	// process dies before the state play and the node walks to its ledger tip on restart): the blocks the real miner
+	// confirmed that a replica cannot replay.
+	if args.Prop == "C03" || args.Prop == "C06" {
 		defer func() {
 			var keep []xvlib.Violation
 			for _, v := range out.Stats.Violations {
-				if strings.HasPrefix(v.Key, "order-violates-dependency") || strings.HasPrefix(v.Key, "mined-block-not-replayable") || strings.HasPrefix(v.Key, "packed-block-not-replayable") {
+				if args.Prop == "C03" && strings.HasPrefix(v.Key, "order-violates-dependency") || strings.HasPrefix(v.Key, "mined-block-not-replayable") || args.Prop == "C03" && strings.HasPrefix(v.Key, "packed-block-not-replayable") {
 					keep = append(keep, v)
 				}
 			}
